@@ -214,7 +214,8 @@ def main(argv):
         "verdict": "violated" if new_violations else ("inconclusive" if reasons else "held"),
     }
     os.makedirs(os.path.join(env.VERIF_ROOT, "evidence"), exist_ok=True)
-    with open(os.path.join(env.VERIF_ROOT, "evidence", f"{prop}.json"), "w") as f:
+    # (mutation validation runs against a scratch tree write their evidence beside the real file, never over it)
+    with open(os.path.join(env.VERIF_ROOT, "evidence", f"{prop}.json" + os.environ.get("VERIF_EVIDENCE_SUFFIX", "")), "w") as f:
         json.dump(evidence, f, indent=1, sort_keys=True)
         f.write("\n")
 
